@@ -16,7 +16,7 @@ ASSUMPTIONS = ["inputs that themselves spell an accent command (backslash, accen
 REQUIRED_COUNTERS = ("codepoints", "with_command", "strings", "exports")
 
 ALPHA12 = ["a", " ", "\\", "{", "&", "\u00e9", "\u0301", "\u0489", "\u2026", "\u00a0", "\u4e2d", "\U0001F600"]
-SPECIALS = ["%", "#", "$", "_", "~", "^", "}", "\u212a", "\u00fc"]  # TeX specials pass through by design
+SPECIALS = ["%", "#", "$", "_", "~", "^", "}", "\u212a", "\u00fc", "\n", "\t"]  # TeX specials and white space pass through
 EXTRA4 = ["\ufb01", "\u00b2", "\u00bd", "\u01d8"]
 SEEDED = ["\u00fc", "\u0327", "\u212b", "\u1e69", "\u0308", "\u0323", "e", "}"]
 
@@ -60,13 +60,18 @@ def via_export(text):
     tl = TimelineTex([{"time": 1, "width": 30, "text": text}, {"time": 5, "width": 30, "text": "x"}],
                      {"scale": LinearScale(), "domain": [0, 10]})
     doc = tl.export()
-    lines = doc.split("\n")
-    for i, ln in enumerate(lines):
-        if ln.startswith("\\def\\textA{"):
-            # text may contain newlines? (not in our alphabets)
-            m = DEF.match(ln)
-            return m.group(2) if m else None
-    return None
+    # the text definitions are consecutive "\def\text<ID>{...}" entries, each starting a line; a label may contain
+    # line feeds, so an entry ends where the next one (or the blank line before \begin{document}) starts
+    a = doc.find("\n\\def\\textA{")
+    if a < 0:
+        return None
+    a += len("\n\\def\\textA{")
+    b = doc.find("\n\\def\\textB{", a)
+    if b < 0:
+        b = doc.find("\n\n\\begin{document}", a)
+    if b < 0 or doc[b - 1] != "}":
+        return None
+    return doc[a:b - 1]
 
 
 def run_shard(shard):
